@@ -62,6 +62,12 @@ func familyFor(p *Property, e *LedgerEntry) string {
 		return "readint"
 	case "C13":
 		return "token"
+	case "C06":
+		return "strtok"
+	case "C19":
+		return "alloc"
+	case "C04":
+		return "float"
 	}
 	return ""
 }
@@ -75,6 +81,12 @@ func replayFnFor(family string, e *LedgerEntry) string {
 		return "SkipValue"
 	case "skipfast":
 		return "SkipValueFast"
+	case "strtok":
+		return "ReadStringBytes"
+	case "alloc":
+		return "readers"
+	case "float":
+		return "ReadFloat64"
 	}
 	return fn
 }
@@ -144,6 +156,7 @@ import (
 	"io"
 	"math"
 	"math/big"
+	"strconv"
 	"strings"
 	"testing"
 	"time"
@@ -153,6 +166,7 @@ var _ = math.MaxInt64
 var _ = io.EOF
 var _ = big.NewInt
 var _ = strings.Contains
+var _ = strconv.Itoa
 var _ = time.Now
 `
 
@@ -192,6 +206,10 @@ func concreteReplay(eng *Engine, p *Property, e *LedgerEntry, fp *FuncProof, bas
 
 	// alphabet: byte constants of the failed VC, then family defaults
 	var alpha []byte
+	alphaMax := 13
+	if family == "strtok" {
+		alphaMax = 40
+	}
 	add := func(bs ...byte) {
 		for _, b := range bs {
 			dup := false
@@ -200,10 +218,21 @@ func concreteReplay(eng *Engine, p *Property, e *LedgerEntry, fp *FuncProof, bas
 					dup = true
 				}
 			}
-			if !dup && len(alpha) < 13 {
+			if !dup && len(alpha) < alphaMax {
 				alpha = append(alpha, b)
 			}
 		}
+	}
+	if family == "strtok" {
+		// string grammar: the bytes the failed VC compares against and their neighbours
+		add('"', '\\')
+		for _, b := range byteConstants(e.failQ) {
+			add(b)
+		}
+		for _, b := range byteConstants(e.failQ) {
+			add(b+1, b-1)
+		}
+		add([]byte("u0aD8 ")...)
 	}
 	structural := []byte(`[]{}",:`)
 	for _, b := range byteConstants(e.failQ) {
@@ -213,7 +242,7 @@ func concreteReplay(eng *Engine, p *Property, e *LedgerEntry, fp *FuncProof, bas
 		}
 	}
 	switch family {
-	case "decode":
+	case "decode", "alloc":
 		add([]byte(`nul-019 "t`)...)
 	case "appenddst":
 		add([]byte("\"\\nu0a D8")...)
